@@ -37,6 +37,7 @@ func c20(r *core.Run) {
 	r.Assumptions = []string{"SHA-256 collision resistance", T5}
 	r.NotDecided = []string{"distinct segment sequences give distinct addresses (collision resistance / separator injectivity)"}
 	r.Rule("C20/R1", "fold-step agreement: step(total, seg) of the path hasher's loop ≡ combiner(total, hex(SHA256(seg))) as terms; the fold starts from \"\" and iterates Split(TrimSuffix(path, \"/\"), \"/\")")
+	r.Rule("C20/R3", "client-side splitters (string -> parent address, child hash) in x/filetree derive both parts from the hasher's own segmentation: only segment-preserving primitives (TrimSuffix, Split, Join, index/slice, len, SHA-256, hex) and, in the Split/Join idiom, exactly segments[:n-1] and segments[n-1]; or they delegate to another checked splitter")
 	r.Rule("C20/R2", "posting uses that step: the stored Address, the returned Path and the owner-hash input are one value = combiner(msg.HashParent, msg.HashChild); the root address is the path hasher of a constant")
 	// find combiner and path hasher in x/filetree/types by shape
 	var combiner, hasher *ssa.Function
@@ -86,6 +87,81 @@ func c20(r *core.Run) {
 		r.Check(ut == want, "C20/R1", "filetree:fold-step≡combiner", p.Pos(hasher.Pos()), "update term = "+ut, "the path hasher's fold step is not combiner(total, hex(SHA256(segment))) over Split(TrimSuffix(path,\"/\"),\"/\"): got "+ut+" want "+want)
 		it := core.NewTermBuilder(p).Term(init)
 		r.Check(it == `""`, "C20/R1", "filetree:fold-start", p.Pos(hasher.Pos()), "fold starts from the empty string", "the fold does not start from the empty string: "+it)
+	}
+	// R3 client-side splitters: (parent address, child hash) derived from one readable path
+	if hasher != nil {
+		nSplit := 0
+		S := `strings.Split(strings.TrimSuffix(P0,"/"),"/")`
+		last := "(len(" + S + ")-1)"
+		allowed := map[string]bool{"strings.TrimSuffix": true, "strings.Split": true, "strings.SplitN": true, "strings.Join": true, "strings.LastIndex": true, "strings.Index": true, "strings.Cut": true,
+			"len": true, "slice": true, "elem": true, "hex": true, "sha256.New": true, "concat": true, "dec": true, "alt": true}
+		splitters := map[*ssa.Function]bool{}
+		for _, fn := range p.Funcs {
+			if !strings.HasPrefix(core.RelPkg(core.FnPkgPath(fn)), "x/filetree") || core.IsTestSupportPkg(core.FnPkgPath(fn)) || p.IsGenerated(fn) || fn.Synthetic != "" {
+				continue
+			}
+			res := fn.Signature.Results()
+			if len(fn.Params) != 1 || fn.Params[0].Type().String() != "string" || res.Len() != 2 || res.At(0).Type().String() != "string" || res.At(1).Type().String() != "string" {
+				continue
+			}
+			splitters[fn] = true
+		}
+		for _, fn := range core.SortedFuncs(splitters) {
+			for _, b := range fn.Blocks {
+				ret, ok := b.Instrs[len(b.Instrs)-1].(*ssa.Return)
+				if !ok {
+					continue
+				}
+				nSplit++
+				r.Analysed(core.FnName(fn))
+				construct := "filetree:splitter:" + core.FnName(fn)
+				// delegation to another splitter with the unchanged path
+				if e0, ok := ret.Results[0].(*ssa.Extract); ok {
+					if e1, ok := ret.Results[1].(*ssa.Extract); ok && e0.Tuple == e1.Tuple && e0.Index == 0 && e1.Index == 1 {
+						if c, ok := e0.Tuple.(*ssa.Call); ok && len(p.Callees(c)) == 1 && splitters[p.Callees(c)[0]] && len(c.Call.Args) == 1 && c.Call.Args[0] == ssa.Value(fn.Params[0]) {
+							r.Ok("C20/R3", construct, p.Pos(fn.Pos()), "delegates to "+core.FnName(p.Callees(c)[0])+" with the unchanged path")
+							continue
+						}
+					}
+				}
+				tb := core.NewTermBuilder(p)
+				tb.Bounds = true
+				parent, child := "", tb.Term(ret.Results[1])
+				allInstrs(fn, func(in ssa.Instruction) {
+					if c, ok := in.(*ssa.Call); ok {
+						for _, cal := range p.Callees(c) {
+							if cal == hasher {
+								parent = tb.Term(c.Call.Args[0])
+							}
+						}
+					}
+				})
+				if parent == "" {
+					r.Violation("C20/R3", construct, p.Pos(fn.Pos()), "the splitter does not derive the parent address with the path hasher")
+					continue
+				}
+				bad := ""
+				for _, t := range []string{parent, child} {
+					for _, f := range termFuncs(t) {
+						if !allowed[f] {
+							bad = f
+						}
+					}
+				}
+				if bad != "" {
+					r.Violation("C20/R3", construct, p.Pos(fn.Pos()), "the splitter passes the path through "+bad+", which is not one of the segment-preserving primitives the path hasher itself uses: for some paths AddToMerkle(parent, child) differs from the address of the plain path; parent="+parent+" child="+child)
+					continue
+				}
+				// the Split/Join idiom: parent = all segments but the last, child = the last segment
+				if strings.Contains(parent, "strings.Join(slice(") {
+					okShape := (parent == `strings.Join(slice(`+S+`,0,`+last+`),"/")` || parent == `strings.Join(slice(`+S+`,,`+last+`),"/")`) && child == "hex(sha256.New(elem("+S+","+last+")))"
+					r.Check(okShape, "C20/R3", construct, p.Pos(fn.Pos()), "parent = segments[:n-1] joined by \"/\", child = hex(SHA256(segments[n-1])) over the hasher's own segmentation", "the splitter does not cut the hasher's segmentation into (all but the last segment, last segment): parent="+parent+" child="+child)
+				} else {
+					r.Ok("C20/R3", construct, p.Pos(fn.Pos()), "built from segment-preserving primitives only: parent="+parent+" child="+child)
+				}
+			}
+		}
+		r.Floor("C20/R3", nSplit, 2, "path splitters")
 	}
 	// R2
 	hs, err := p.Handlers()
@@ -168,4 +244,31 @@ func c20(r *core.Run) {
 		}
 		r.Check(found, "C20/R2", h.Key()+":root-address", p.Pos(h.Fn.Pos()), "root address = pathHasher(constant)", "the root folder's address is not the path hasher applied to a constant path")
 	}
+}
+
+// termFuncs lists the function symbols of a canonical term.
+func termFuncs(t string) []string {
+	var out []string
+	inq := false
+	start := -1
+	for i, c := range t {
+		switch {
+		case c == '"':
+			inq = !inq
+			start = -1
+		case inq:
+		case c == '(':
+			if start >= 0 && start < i {
+				out = append(out, t[start:i])
+			}
+			start = -1
+		case c == ',' || c == ')' || c == '-' || c == '+' || c == '#':
+			start = -1
+		default:
+			if start < 0 {
+				start = i
+			}
+		}
+	}
+	return out
 }
